@@ -32,7 +32,7 @@ POOL = [
     ("Vector", "double", "unwrap", "Vector", "Vector", False, "Vector()"),
     ("Matrix", "double", "unwrap", "Matrix", "Matrix", False, "Matrix()"),
     ("ns::Other", "ns.Other", "sp", "ns::Other", "std::shared_ptr<ns::Other>", True, "ns::Other()"),
-    ("const ns::Other&", "ns.Other", "ref", "ns::Other", "ns::Other&", False, "ns::Other(1, 2)"),
+    ("const ns::Other&", "ns.Other", "ref", "ns::Other", "ns::Other&", False, 'ns::Other(1,\n        "two  blanks\tand a tab")'),      # a default written over two lines
     ("ns::Other&", "ns.Other", "ref", "ns::Other", "ns::Other&", False, None),
     ("ns::Other*", "ns.Other", "sp", "ns::Other", "std::shared_ptr<ns::Other>", False, "nullptr"),
     ("ns::Other@", "ns.Other", "raw", "ns::Other", "ns::Other*", False, "nullptr"),
@@ -79,6 +79,15 @@ def render(role, argspec, ret, layout=0):
 
 def ptr_name(cpptype):
     return "ptr_" + re.sub(r"[^A-Za-z0-9_]", "", cpptype)
+
+
+def squash(text):
+    """white space outside string / character literals removed (the MEX source re-indents the continuation lines of a
+    default written over several lines; inside literals every character counts)"""
+    out = []
+    for i, part in enumerate(re.split(r'''("(?:[^"\\\\]|\\\\.)*"|'(?:[^'\\\\]|\\\\.)*')''', text)):
+        out.append(part if i % 2 else re.sub(r"\s+", "", part))
+    return "".join(out)
 
 
 def check_callable(role, tis, k, ret, layout=0):
@@ -156,8 +165,9 @@ def check_callable(role, tis, k, ret, layout=0):
             call_args.append(POOL[tis[i]][6])
         callee = {"ctor": "new top::Cls", "method": "obj->doIt", "static": "top::Cls::doIt", "function": "top::doIt"}[role]
         want_call = "%s(%s)" % (callee, ",".join(call_args))
-        if want_call not in body:
-            got = re.search(re.escape(callee) + r"\((.*)\)", body)
+        sbody = squash(body)
+        if squash(want_call) not in sbody:
+            got = re.search(re.escape(callee) + r"\((.*)\)", body, re.S)
             problems.append("arity %d: call %r, declared %r" % (a, got.group(0)[:120] if got else None, want_call))
         if role != "ctor":
             rspec = RETS[ret]
@@ -174,11 +184,11 @@ def check_callable(role, tis, k, ret, layout=0):
                     w = 'out[%d] = wrap_shared_ptr(%s,"%s", false);' % (oi, src, piece[1])
                 else:
                     w = 'out[%d] = wrap_enum(%s,"%s");' % (oi, src, piece[1])
-                if w not in body:
+                if squash(w) not in sbody:
                     problems.append("arity %d: return statement for output %d should be `%s`" % (a, oi, w))
-            if rspec[1] == 2 and ("auto pairResult = %s;" % want_call) not in body:
+            if rspec[1] == 2 and squash("auto pairResult = %s;" % want_call) not in sbody:
                 problems.append("arity %d: pair result is not taken from the declared call" % a)
-            if rspec[1] == 0 and (want_call + ";") not in body:
+            if rspec[1] == 0 and squash(want_call + ";") not in sbody:
                 problems.append("arity %d: void call statement missing" % a)
             mret = {0: "", 1: "varargout{1} = ", 2: "[ varargout{1} varargout{2} ] = "}[rspec[1]]
             if not re.search(r"\n\s*" + re.escape(mret) + r"mod_wrapper\(" + wid, m):
